@@ -16,8 +16,8 @@ RULE = ('documents with 1-40 \\index entries over mixed-case, accented, numeric 
         '\\printindex; index-columns in 1..4.  Non-trivial = >= 3 entries with at least one duplicate path or one multi-level entry; distinct '
         'by document text.')
 ASSUMPTIONS = ["the key function plasTeX has configured (plasTeX.Base.LaTeX.Index.collator) is trusted as 'the collation key'; which one is in force is "
-               'recorded in the evidence', 'entries whose collation keys tie but whose raw keys differ are not generated together (the statement does '
-               'not order them)', 'how full each column is, and padding columns, are not judged']
+               'recorded in the evidence', 'entries whose collation keys tie but whose raw keys differ (case variants, in 30% of the documents) may stand in any order among '
+               'themselves (the statement does not order them); each of them is still one line with all its occurrences', 'how full each column is, and padding columns, are not judged']
 DECIDING_REACH = ['index.invoke', 'IndexUtils.digest', 'IndexUtils.groups', 'IndexUtils.splitColumns', 'IndexEntry.__lt__']
 DECIDING_COUNTERS = {'entries_compared': 300, 'rendered_entries_compared': 100}
 
@@ -57,11 +57,19 @@ def tex_escape(s):
 
 def gen_case(r):
     n = r.choice([1, 3, 6, 10, 20, 40])
-    # choose a vocabulary without collation-key ties between different raw keys
+    # most vocabularies have no collation-key ties between different raw keys
     top = r.sample(WORDS, min(len(WORDS), r.randint(2, 10)))
     seen = {}
     top = [w for w in top if seen.setdefault(w.lower(), w) == w]
+    ties = r.random() < 0.3
+    if ties:
+        # different keys whose collation keys may tie (case variants): the statement does not order them among themselves, but
+        # every one of them is still one line with all its occurrences
+        top = top[:4] + [w.swapcase() for w in top[:2]] + [top[0].capitalize(), top[0].upper()]
+    tie_subs = ties
     subs = r.sample(SUBS, r.randint(2, 6))
+    if tie_subs:
+        subs = subs[:3] + [subs[0].swapcase(), subs[0].upper()]
     entries = []
     for _ in range(n):
         levels = []
@@ -71,7 +79,7 @@ def gen_case(r):
             levels.append([w, w])
         # sort@display on the last level sometimes, and (less often) on the levels above it
         if r.random() < 0.2:
-            disp = r.choice(['Shown', 'display', 'Zed'])
+            disp = r.choice(['Shown', 'display', 'Zed'] + (['shown', 'SHOWN'] if ties else []))
             levels[-1] = [levels[-1][0], disp + levels[-1][0]]
         for li in range(nl - 1):
             if r.random() < 0.15:
@@ -179,6 +187,21 @@ def strip(t):
     return [{'sort': x['sort'], 'disp': x['disp'], 'occ': x['occ'], 'kids': strip(x['kids'])} for x in t]
 
 
+def canon_ties(t, collate):
+    """siblings whose collation keys tie are not ordered by the statement: put every maximal run of them into one fixed order"""
+    out, i = [], 0
+    while i < len(t):
+        k = (collate(t[i]['sort']), collate(t[i]['disp']))
+        j = i
+        while j < len(t) and (collate(t[j]['sort']), collate(t[j]['disp'])) == k:
+            j += 1
+        out.extend(sorted(t[i:j], key=lambda x: (x['sort'], x['disp'])))
+        i = j
+    for x in out:
+        x['kids'] = canon_ties(x['kids'], collate)
+    return out
+
+
 def diff_tree(e, o, path=''):
     if len(e) != len(o):
         return 'under %r: index shows %r, entries name %r' % (path or '(top)', [x['disp'] for x in o], [x['disp'] for x in e])
@@ -223,7 +246,8 @@ def run(case, st):
     exp = model(case['entries'], IndexMod.collator, IndexMod.unidecode)
     obs = observed(pi, ordinal)
     st.counters['entries_compared'] += len(case['entries'])
-    d = diff_tree(exp, strip(obs))
+    exp = canon_ties(exp, IndexMod.collator)
+    d = diff_tree(exp, canon_ties(strip(obs), IndexMod.collator))
     if d:
         st.violation(classify(case, d), case, d + '\n' + src[:1500])
         return {'nontrivial': True}
@@ -259,7 +283,7 @@ def run(case, st):
             [str(x.key.textContent) for x in flat], [str(x.key.textContent) for x in top], case['cols']))
         return {'nontrivial': True}
     if case.get('render'):
-        d = rendered_index(case, exp, st)
+        d = rendered_index(case, strip(obs), st)        # (the order the tree has, which was just found to be a correct one)
         if d:
             st.violation('rendered/' + d[0], case, '%s index page: %s\n%s' % (case['render'], d[1], src[:1200]))
             return {'nontrivial': True}
